@@ -447,6 +447,10 @@ func reference(t *tcase, snap map[string]map[string]any) expectation {
 		}
 		if st.Creds {
 			req.Credentials["main"] = &fnv1.Credentials{Source: &fnv1.Credentials_CredentialData{CredentialData: &fnv1.CredentialData{Data: secretDataOf(snap, fmt.Sprintf("team-%d", si), "cloud-creds")}}}
+			if si%2 == 1 {
+				// odd steps list a source-None placeholder first and a second Secret last
+				req.Credentials["second"] = &fnv1.Credentials{Source: &fnv1.Credentials_CredentialData{CredentialData: &fnv1.CredentialData{Data: secretDataOf(snap, fmt.Sprintf("team-%d", si), "extra-creds")}}}
+			}
 		}
 		var prev *fnv1.Requirements
 		var step []*fnv1.RunFunctionRequest
@@ -521,6 +525,14 @@ func (w *worker) run(i int, name string) {
 			steps[f].(map[string]any)["credentials"] = []any{map[string]any{"name": "main", "source": "Secret", "secretRef": map[string]any{"namespace": fmt.Sprintf("team-%d", f), "name": "cloud-creds"}}}
 			world.MustSeed("user", map[string]any{"apiVersion": "v1", "kind": "Secret", "metadata": map[string]any{"namespace": fmt.Sprintf("team-%d", f), "name": "cloud-creds"},
 				"data": map[string]any{"token": base64.StdEncoding.EncodeToString([]byte(fmt.Sprintf("t%d", f)))}})
+			if f%2 == 1 {
+				// a placeholder without a source first, the step's main Secret, and a second Secret last
+				cl := steps[f].(map[string]any)["credentials"].([]any)
+				steps[f].(map[string]any)["credentials"] = append(append([]any{map[string]any{"name": "placeholder", "source": "None"}}, cl...),
+					map[string]any{"name": "second", "source": "Secret", "secretRef": map[string]any{"namespace": fmt.Sprintf("team-%d", f), "name": "extra-creds"}})
+				world.MustSeed("user", map[string]any{"apiVersion": "v1", "kind": "Secret", "metadata": map[string]any{"namespace": fmt.Sprintf("team-%d", f), "name": "extra-creds"},
+					"data": map[string]any{"token": base64.StdEncoding.EncodeToString([]byte(fmt.Sprintf("x%d", f)))}})
+			}
 		}
 	}
 	_ = unstructured.SetNestedSlice(comp, steps, "spec", "pipeline")
